@@ -101,6 +101,86 @@ def check(rep, rule, d, fn, label, construct, got, alts, why):
                  detail="%s: found `%s`, required `%s`" % (why, got[i].strip(), want[i].strip()))
 
 
+POLICY_DRIVER = '''#include "xtl/xvisitor.hpp"
+#include <stdexcept>
+namespace xtl
+{
+    template <class R, class T>
+    struct wx_counting_catch_all
+    {
+        static R on_unknown_visitor(T&, base_visitor&) { return R(); }
+    };
+}
+namespace wxtl
+{
+    struct NBase : xtl::base_visitable<int, false, xtl::throwing_catch_all> { };
+    struct NLeaf : NBase { XTL_DEFINE_VISITABLE() };
+    struct CBase : xtl::base_visitable<int, true, xtl::throwing_catch_all> { };
+    struct CLeaf : CBase { XTL_DEFINE_CONST_VISITABLE() };
+    struct UBase : xtl::base_visitable<int, false, xtl::wx_counting_catch_all> { };
+    struct ULeaf : UBase { XTL_DEFINE_VISITABLE() };
+    struct VBase : xtl::base_visitable<int, true, xtl::wx_counting_catch_all> { };
+    struct VLeaf : VBase { XTL_DEFINE_CONST_VISITABLE() };
+    inline int use_policy(NLeaf& a, const CLeaf& b, ULeaf& c, const VLeaf& e, xtl::base_visitor& v)
+    {
+        return a.accept(v) + b.accept(v) + c.accept(v) + e.accept(v);
+    }
+}
+'''
+
+
+def rule_policy(rep):
+    """which catch_all policy is reached when the visitor has no handler, decided on instantiations with a non-default policy (the library's throwing one
+    and a user one), for the const and the non-const visitable: following the calls clang resolved from accept_impl, every on_unknown_visitor that can be
+    reached belongs to the policy the hierarchy was declared with"""
+    R_ = "C17.policy"
+    rep.rule(R_, "accept_impl of a visitable declared with policy P reaches on_unknown_visitor of P<R, T> and of no other policy (const and non-const visitables, "
+                 "library and user policies), through whatever helpers")
+    d = cj.dump(POLICY_DRIVER, "xtl::")
+    rep.cmd(d.cmd)
+
+    def reach(fn, depth, seen):
+        out = []
+        if fn is None or ir.body(fn) is None or fn.get("id") in seen or depth > 4:
+            return out
+        seen.add(fn.get("id"))
+        for x in ir.walk_expr(ir.body(fn)):
+            if x.get("kind") not in ("CallExpr", "CXXMemberCallExpr") or not ir.ekids(x):
+                continue
+            c = ir.strip(ir.ekids(x)[0])
+            tg = d.by_id.get(c.get("referencedMemberDecl")) if c.get("kind") == "MemberExpr" else d.by_id.get((c.get("referencedDecl") or {}).get("id"))
+            if tg is None:
+                continue
+            if tg.get("name") == "on_unknown_visitor":
+                out.append(((ir.enclosing_class(d, tg) or {}).get("name"), x))
+            elif "/xtl/" in (d.where(tg) or "") and tg.get("name") != "visit":
+                out += reach(tg, depth + 1, seen)
+        return out
+    n = 0
+    for f in ir.functions(d, "accept_impl"):
+        cls = ir.enclosing_class(d, f)
+        if cls is None or cls.get("name") != "base_visitable" or ir.is_template_pattern(d, f) or ir.body(f) is None:
+            continue
+        targs = (f.get("type") or {}).get("qualType", "").split("::return_type")[0]
+        want = "throwing_catch_all" if "throwing_catch_all" in targs else ("wx_counting_catch_all" if "wx_counting_catch_all" in targs else None)
+        if want is None:
+            continue
+        n += 1
+        lab = "%s::accept_impl" % targs.replace("xtl::", "")[:70]
+        got = reach(f, 0, set())
+        names = sorted({g[0] for g in got if g[0]})
+        if not got:
+            rep.inconclusive(R_, lab, "policy reached", where=d.where(f), detail="no call of on_unknown_visitor is reached from this instantiation")
+        elif names == [want]:
+            rep.holds(R_, lab, "policy reached", where=d.where(f), detail="%s::on_unknown_visitor" % want)
+        else:
+            rep.violates(R_, lab, "policy reached", where=d.where(got[0][1]),
+                         detail="a visitor without a handler reaches %s::on_unknown_visitor, the hierarchy was declared with %s: the configured policy is silently replaced" % (
+                             ", ".join(x for x in names if x != want) or "?", want))
+    if n < 4:
+        raise cj.AnalysisBroken("C17.policy: only %d of the 4 accept_impl instantiations found" % n)
+
+
 def run(tier):
     rep = Report("C17", tier, "other",
                  "Pattern-level discipline rules for static_dispatcher, basic_dispatcher, basic_fast_dispatcher, functor_dispatcher and the "
@@ -522,4 +602,5 @@ def run(tier):
         ok = any(n.get("kind") == "CXXThrowExpr" for n in ir.walk_expr(ir.body(f)))
         (rep.holds if ok else rep.violates)("C17.err", "throwing_catch_all::on_unknown_visitor", "raises", where=d.where(f), detail="throws" if ok else "does not throw")
     rep.unit("%d dispatcher/visitor functions" % sum(len(v) for k, v in fns.items() if k[0] in (SD, BD, FD, FU, "base_visitable", "cyclic_visitor", "throwing_catch_all")))
+    rule_policy(rep)
     return rep
